@@ -101,6 +101,14 @@ func genC04(g *Gen) {
 		for _, in := range rareInputs() {
 			g.Run("rare code points in every context:"+kind, []Ev{{"op": "tok", "kind": kind, "opts": []any{}, "input": cpsR(in)}})
 		}
+		// far more tokens than 2^16 in one buffer
+		if g.Thorough() || kind == "csv" || kind == "generic" {
+			unit := map[string]string{"csv": "1,", "mustache": "{{a}}", "expression": "1+"}[kind]
+			if unit == "" {
+				unit = "1 "
+			}
+			g.Run("more than 2^16 tokens:"+kind, []Ev{{"op": "tok", "kind": kind, "opts": []any{}, "input": cpsR([]rune(strings.Repeat(unit, 35000)))}})
+		}
 		for _, sz := range longSizes {
 			if sz > g.Pick(300, 5000) {
 				continue
